@@ -14,7 +14,6 @@ from harness import common as C
 from harness.common import cbytes, clist, cnat
 
 PID = "C13"
-KEY_SHARED = "llcm-shared-across-connection-handles"
 M2S, S2M = 1, 2
 MASK = 0xE3
 EXC = {"IndexError": 1, "UnboundLocalError": 2, "ValueError": 3, "error": 4, "MissingCryptographicMaterial": 5}
@@ -331,14 +330,42 @@ def gen_stack_cases(ctx):
             p["at"] = len(events) - 1
             procs.append(p)
         cases.append({"kind": "sequential", "handles": HANDLES, "events": events, "procs": procs})
-    # (b) two central procedures on different handles whose PDUs interleave (known finding class)
-    for _ in range(12 if ctx.thorough else 3):
-        h1, h2 = rng.sample(HANDLES, 2)
-        p, q = rand_proc(rng, h1, True), rand_proc(rng, h2, True)
-        ep, eq = proc_events(p), proc_events(q)
-        events = [ep[0], eq[0], ep[1], eq[1], ep[2], eq[2], ep[3], eq[3]]
-        p["at"], q["at"] = 6, 7
-        cases.append({"kind": "interleaved", "handles": HANDLES, "events": events, "procs": [p, q]})
+    # (b) ARBITRARY interleavings: per-handle procedure sequences merged event by event in random order
+    for i in range(120 if ctx.thorough else 24):
+        hs = rng.sample(HANDLES, rng.choice([2, 2, 3, 4]))
+        per = {}
+        for h in hs:
+            per[h] = [rand_proc(rng, h, (i % 4 != 3) or rng.random() < 0.5) for _ in range(rng.choice([1, 1, 2, 3]))]
+        queues = {h: [(p, e, k == len(proc_events(p)) - 1) for p in per[h] for k, e in enumerate(proc_events(p))] for h in hs}
+        events, procs = [], []
+        if i % 6 == 0:       # the exact pattern of the repaired defect first: both LL_ENC_RSP before both LL_START_ENC_REQ
+            p, q = rand_proc(rng, hs[0], True), rand_proc(rng, hs[1], True)
+            ep, eq = proc_events(p), proc_events(q)
+            events = [ep[0], eq[0], ep[1], eq[1], ep[2], eq[2], ep[3], eq[3]]
+            p["at"], q["at"] = 6, 7
+            procs = [p, q]
+        while any(queues.values()):
+            h = rng.choice([h for h in hs if queues[h]])
+            p, e, last = queues[h].pop(0)
+            events.append(e)
+            if last:
+                p["at"] = len(events) - 1
+                procs.append(p)
+        cases.append({"kind": "interleaved", "handles": HANDLES, "events": events, "procs": procs})
+    # (b') disconnection / reconnection reusing the handle between and inside procedures of other handles
+    for i in range(40 if ctx.thorough else 8):
+        h, h2 = rng.sample(HANDLES, 2)
+        p1, p2, other = rand_proc(rng, h, True), rand_proc(rng, h, i % 2 == 0), rand_proc(rng, h2, True)
+        eo = proc_events(other)
+        events = proc_events(p1)
+        p1["at"] = len(events) - 1
+        events += eo[:3] + [["disc", h], ["conn", h], ["startencreq", h]]     # no manager may survive the disconnection
+        stale_at = len(events) - 1
+        events += [eo[3]]
+        other["at"] = len(events) - 1
+        events += proc_events(p2)
+        p2["at"] = len(events) - 1
+        cases.append({"kind": "reconnect", "handles": HANDLES, "events": events, "procs": [p1, other, p2], "no_setenc_at": [stale_at]})
     # (c) guards: no key, no manager yet, LL_ENC_RSP without LL_ENC_REQ, unknown handle, key withdrawn
     k = rand_material(rng, 5)[0]
     cases.append({"kind": "guards", "handles": [7], "procs": [],
@@ -354,7 +381,7 @@ STACK_EXC = {"AttributeError": "AttributeError", "error": "StructError", "ValueE
 def cev(e):
     if e[0] == "reg":
         return "EReg %d %s" % (e[1], "None" if e[2] is None else "(Some %s)" % cbytes(bytes.fromhex(e[2])))
-    name = {"start": "EStart", "encrsp": "EEncRsp", "startencreq": "EStartEncReq", "encreq": "EEncReq"}[e[0]]
+    name = {"start": "EStart", "encrsp": "EEncRsp", "startencreq": "EStartEncReq", "encreq": "EEncReq", "conn": "EConn", "disc": "EDisc"}[e[0]]
     return name + " " + " ".join("%d" % x for x in e[1:])
 
 
@@ -394,16 +421,15 @@ def judge_stack(ctx, c, res):
         o = out[p["at"]]
         got = o.get("call") if o["k"] == "setenc" else None
         if got != want:
-            # class of the known finding: the manager in use was created by a procedure on ANOTHER handle
-            last = None
-            for e in c["events"][:p["at"]] if p["central"] else []:
-                if e[0] in ("encrsp", "encreq"):
-                    last = e[1]
-            key = KEY_SHARED if (last is not None and last != p["h"]) else None
             n += ctx.violation("session key / IV / LTK handed to the PHY is not e(LTK, SKDs||SKDm), IVm||IVs of the current encryption procedure",
-                               dict(case, failing_proc=c["procs"].index(p)), key=key, expected=want, observed=o)
+                               dict(case, failing_proc=c["procs"].index(p)), expected=want, observed=o)
+    for k in c.get("no_setenc_at", []):
+        if out[k]["k"] in ("setenc", "multi"):
+            n += ctx.violation("LL_START_ENC_REQ after a disconnection/reconnection of the handle was answered with the previous connection's material",
+                               dict(case, failing_event=k), expected="no set_encryption", observed=out[k])
     ats = {p["at"] for p in c["procs"]}
-    if c["kind"] in ("sequential", "interleaved"):
+    ats |= set(c.get("no_setenc_at", []))
+    if c["kind"] in ("sequential", "interleaved", "reconnect"):
         extra = [i for i, o in enumerate(out) if o["k"] in ("setenc", "multi") and i not in ats]
         if extra or any(o["k"] == "multi" for o in out):
             n += ctx.violation("set_encryption called outside / more than once in a procedure", case, observed=[out[i] for i in extra][:3])
